@@ -21,7 +21,10 @@ type cfgIn struct {
 	maxAge                                        int
 }
 
-type reqIn struct{ method, origin, acrm, acrh, acrpn string }
+type reqIn struct {
+	method, origin, acrm, acrh, acrpn string
+	skip                              bool
+}
 
 var schemes = []string{"http", "https"}
 var hosts = []string{"example.com", "a.example.com", "b.a.example.com", "evil-example.com", "examplexcom",
@@ -51,6 +54,9 @@ func genCfgOrigin(r *gen.Rand) string {
 		return "*"
 	case 1, 2, 3:
 		o := gen.Pick(r, schemes) + "://*." + gen.Pick(r, hosts[:6]) + gen.Pick(r, ports)
+		if r.Chance(1, 8) {
+			o = gen.Pick(r, []string{" ", "  "}) + o + gen.Pick(r, []string{"", " ", "/"})
+		}
 		return mixCase(r, o)
 	case 4:
 		return " " + genOrigin(r) + " "
@@ -134,6 +140,7 @@ func genReq(r *gen.Rand, c cfgIn) reqIn {
 	if r.Chance(1, 3) {
 		q.acrpn = gen.Pick(r, []string{"true", "false", "TRUE"})
 	}
+	q.skip = r.Chance(1, 10)
 	return q
 }
 
@@ -161,6 +168,8 @@ func observe(c cfgIn, q reqIn) (obs string) {
 		}
 		conf.AllowOriginsFunc = func(o string) bool { return allowed[o] }
 	}
+	// Next is always configured; it steps aside exactly for requests marked X-Skip: 1
+	conf.Next = func(c fiber.Ctx) bool { return c.Get("X-Skip") == "1" }
 	app := fiber.New()
 	ran := false
 	app.Use(cors.New(conf))
@@ -181,6 +190,9 @@ func observe(c cfgIn, q reqIn) (obs string) {
 	}
 	if q.acrpn != "" {
 		req.Header.Set("Access-Control-Request-Private-Network", q.acrpn)
+	}
+	if q.skip {
+		req.Header.Set("X-Skip", "1")
 	}
 	fctx.Init(&req, nil, nil)
 	h(&fctx)
@@ -204,7 +216,7 @@ func emit(w *gen.Writer, id string, c cfgIn, q reqIn) {
 	}
 	w.Case(id, gen.HexList(c.origins), gen.B(c.funcSet), gen.HexList(c.funcAllows), gen.HexList(c.methods),
 		gen.HexList(c.headers), gen.HexList(c.expose), gen.I(c.maxAge), gen.B(c.creds), gen.B(c.pn),
-		gen.Hex(q.method), gen.Hex(q.origin), gen.Hex(q.acrm), gen.Hex(q.acrh), gen.Hex(q.acrpn), obs)
+		gen.Hex(q.method), gen.Hex(q.origin), gen.Hex(q.acrm), gen.Hex(q.acrh), gen.Hex(q.acrpn), gen.B(q.skip), obs)
 }
 
 func main() {
@@ -214,7 +226,7 @@ func main() {
 	defer w.Close()
 	if o.Replay != "" {
 		for _, f := range gen.ReplayInputs(o.Replay) {
-			if len(f) < 15 {
+			if len(f) < 16 {
 				continue
 			}
 			var mi int
@@ -222,7 +234,7 @@ func main() {
 			c := cfgIn{origins: gen.UnHexList(f[1]), funcSet: f[2] == "1", funcAllows: gen.UnHexList(f[3]),
 				methods: gen.UnHexList(f[4]), headers: gen.UnHexList(f[5]), expose: gen.UnHexList(f[6]),
 				maxAge: mi, creds: f[8] == "1", pn: f[9] == "1"}
-			q := reqIn{gen.UnHex(f[10]), gen.UnHex(f[11]), gen.UnHex(f[12]), gen.UnHex(f[13]), gen.UnHex(f[14])}
+			q := reqIn{gen.UnHex(f[10]), gen.UnHex(f[11]), gen.UnHex(f[12]), gen.UnHex(f[13]), gen.UnHex(f[14]), f[15] == "1"}
 			emit(w, f[0], c, q)
 		}
 		return
